@@ -219,7 +219,7 @@ class DiffXReader(object):
 
                     try:
                         section['metadata'] = json.loads(content)
-                    except ValueError as e:
+                    except (ValueError, RecursionError) as e:
                         raise DiffXParseError(
                             'JSON metadata could not be parsed: %s' % e,
                             linenum=linenum)
